@@ -7,6 +7,7 @@ import (
 	"fmt"
 	"os"
 	"runtime/debug"
+	"strings"
 
 	"verif/tools/internal/core"
 	"verif/tools/internal/rules"
@@ -62,12 +63,21 @@ func main() {
 	if *tier == "thorough" {
 		vs := core.RunSelftests(*prop, *repo, *verif)
 		run, det, brun, bquiet := 0, 0, 0, 0
-		var misses, falseAlarms []string
+		var misses, falseAlarms, checkerErrors []string
 		for _, v := range vs {
 			status := "DETECTED"
 			switch {
 			case !v.Applied:
 				status = "SKIPPED (" + v.Note + ")"
+			case strings.HasPrefix(v.Note, "checker exit status"):
+				// neither 0 nor 1: the checker itself failed on this variant (a panic, a load error) — a checker bug, shown as such
+				status = "CHECKER ERROR (" + v.Note + ")"
+				checkerErrors = append(checkerErrors, v.Name)
+				if v.Kind == "benign" {
+					brun++
+				} else {
+					run++
+				}
 			case v.Kind == "benign":
 				brun++
 				if v.Detected {
@@ -95,7 +105,10 @@ func main() {
 		rep.Selftest = map[string]any{
 			"what":     "the checker run on seeded variants of the repository (scratch copies under /var/tmp, removed afterwards): hand-made single-instance variants, variants written by independent sub-agents given only the property text, and reversals of the fix: commits; every variant compiles and passes the 51 existing tests",
 			"variants": vs, "variants_run": run, "variants_detected": det, "missed": misses,
-			"benign_variants_run": brun, "benign_variants_silent": bquiet, "false_alarms": falseAlarms,
+			"benign_variants_run": brun, "benign_variants_silent": bquiet, "false_alarms": falseAlarms, "checker_errors": checkerErrors,
+		}
+		if len(checkerErrors) > 0 {
+			rep.Note("selftest: the checker itself failed (exit status other than 0/1) on %d variant(s): %v", len(checkerErrors), checkerErrors)
 		}
 		rep.Unit("benign_variants_run", brun)
 		rep.Unit("benign_variants_silent", bquiet)
